@@ -1,5 +1,5 @@
 (* SavepointP.v — what can be proved about savepoints (C06, last clause), and what cannot. *)
-From Continuum Require Import Model.Base Model.VTable Model.Core Model.Savepoint Proofs.CoreP.
+From Continuum Require Import Model.Base Model.VTable Model.Core Model.Savepoint Proofs.CoreP Proofs.RollbackP.
 
 Definition inner_ok (evs : list ev) : Prop := ~ In Commit evs /\ ~ In Rollback evs.
 
@@ -20,32 +20,37 @@ Proof.
   apply mstep_core_sps; intro E; [apply H1 | apply H2]; left; exact E.
 Qed.
 
-(* the database is restored exactly, whatever happened inside the savepoint *)
-Theorem savepoint_rollback_restores_database g m evs :
+(* work inside a savepoint never touches the committed database *)
+Lemma fold_keeps_committed g evs s : inner_ok evs -> s_committed (fold_left (step g) evs s) = s_committed s.
+Proof. intros [H _]. apply fold_committed. exact H. Qed.
+
+(* the database AND the unit of work are restored exactly, whatever happened inside the savepoint *)
+Theorem savepoint_rollback_restores g m evs :
   inner_ok evs ->
   let m' := mstep g (fold_left (mstep g) (map MCore evs) (mstep g m SpBegin)) SpRollback in
-  s_db (m_core m') = s_db (m_core m) /\ m_sps m' = m_sps m /\
-  s_committed (m_core m') = s_committed (m_core (fold_left (mstep g) (map MCore evs) (mstep g m SpBegin))).
+  s_db (m_core m') = s_db (m_core m) /\ s_uow (m_core m') = s_uow (m_core m) /\
+  s_committed (m_core m') = s_committed (m_core m) /\ m_sps m' = m_sps m.
 Proof.
   intro Hi. destruct (mfold_core g evs (mstep g m SpBegin) Hi) as [A B]. cbv zeta.
   set (mm := fold_left (mstep g) (map MCore evs) (mstep g m SpBegin)) in *.
-  assert (Hs : m_sps mm = s_db (m_core m) :: m_sps m) by (rewrite A; reflexivity).
-  unfold mstep. rewrite Hs. simpl. auto.
+  assert (Hs : m_sps mm = (s_db (m_core m), s_uow (m_core m)) :: m_sps m) by (rewrite A; reflexivity).
+  unfold mstep. rewrite Hs. cbn [m_core m_sps with_saved fst snd s_db s_uow s_committed].
+  repeat split. rewrite B. cbn [mstep m_core]. apply fold_keeps_committed. exact Hi.
 Qed.
 
-(* PARTIAL: the unit of work is restored only if the work inside the savepoint left it unchanged
-   (no versioned flush inside); the full statement is refuted in Refuted/C06_refuted.v *)
-Theorem savepoint_rollback_partial g m evs :
+(* as a whole state: rolling the savepoint back is as if the work inside had never been attempted,
+   provided the package raised no error of its own inside (it never does in a reachable state of a
+   consistent configuration: C07_versioning_never_raises) *)
+Theorem savepoint_rollback_full g m evs :
   inner_ok evs ->
-  s_uow (fold_left (step g) evs (m_core m)) = s_uow (m_core m) ->
   s_err (fold_left (step g) evs (m_core m)) = s_err (m_core m) ->
-  s_committed (fold_left (step g) evs (m_core m)) = s_committed (m_core m) ->
   mstep g (fold_left (mstep g) (map MCore evs) (mstep g m SpBegin)) SpRollback = m.
 Proof.
-  intros Hi Hu He Hc. destruct (mfold_core g evs (mstep g m SpBegin) Hi) as [A B].
+  intros Hi He. destruct (mfold_core g evs (mstep g m SpBegin) Hi) as [A B].
   set (mm := fold_left (mstep g) (map MCore evs) (mstep g m SpBegin)) in *.
-  assert (Hs : m_sps mm = s_db (m_core m) :: m_sps m) by (rewrite A; reflexivity).
+  assert (Hs : m_sps mm = (s_db (m_core m), s_uow (m_core m)) :: m_sps m) by (rewrite A; reflexivity).
   assert (Hc' : m_core mm = fold_left (step g) evs (m_core m)) by (rewrite B; reflexivity).
-  unfold mstep. rewrite Hs, Hc'. unfold with_db. rewrite Hu, He, Hc.
+  unfold mstep. rewrite Hs, Hc'. unfold with_saved. cbn [fst snd].
+  rewrite (fold_keeps_committed g evs (m_core m) Hi), He.
   destruct m as [c sps]. simpl. destruct c; reflexivity.
 Qed.
